@@ -869,6 +869,10 @@ impl Gen<'_> {
             self.emit(format!("j {li}"));
             self.emit_label(&lf);
             self.exit();
+            if self.r.chance(1, 2) {
+                // ... and dead code that puts another address into the register falls into it
+                self.emit(format!("la {}, {lf}", self.reg("t0")));
+            }
             self.emit_label(&li);
             self.emit(format!("csrrw {}, utvec, {}", self.reg("zero"), self.reg("t0")));
             self.body(&mut mctx, 1, 1);
